@@ -34,7 +34,10 @@ use verif_harness::*;
 const K_STATIC: usize = 0;
 const K_OTHER: usize = 1;
 const K_JWKS: usize = 2;
+/// a JWKS entry that is not an Ed25519 key (kty EC): `EdDSAVerifier::new` refuses it
+const K_EC: usize = 3;
 const JWKS_KID: &str = "ssr-key-1";
+const JWKS_EC_KID: &str = "ec-key";
 
 // ------------------------------------------------------------------------------------------------
 // recipes
@@ -508,7 +511,11 @@ fn impl_label(r: &Result<Result<AnyClaims, SnapTokenVerifyError>, String>) -> St
 }
 
 fn model_request(p: &Parsed, jwks: bool, now: u64) -> String {
-    let jw = if jwks { format!("J{}={}", hex(JWKS_KID.as_bytes()), K_JWKS) } else { "J-".to_string() };
+    let jw = if jwks {
+        format!("J{}={};{}={}", hex(JWKS_KID.as_bytes()), K_JWKS, hex(JWKS_EC_KID.as_bytes()), K_EC)
+    } else {
+        "J-".to_string()
+    };
     let kid = match &p.kid {
         None => "N".to_string(),
         Some(k) => format!("S{}", hex(k.as_bytes())),
@@ -549,11 +556,20 @@ fn spec_violations(p: &Option<Parsed>, jwks: bool, now: u64, leeway: u64) -> Vec
         bad.push(("algorithm", format!("alg = {:?}", p.alg)));
     }
     let trusted: Option<usize> = match (&p.kid, jwks) {
-        (Some(k), true) => if k == JWKS_KID { Some(K_JWKS) } else { None },
+        (Some(k), true) => {
+            if k == JWKS_KID {
+                Some(K_JWKS)
+            } else if k == JWKS_EC_KID {
+                Some(K_EC)
+            } else {
+                None
+            }
+        }
         _ => Some(K_STATIC),
     };
     match (trusted, &p.sig) {
         (None, _) => bad.push(("signature", format!("kid {:?} is not in the JWKS", p.kid))),
+        (Some(K_EC), _) => bad.push(("signature", "the JWKS key of that kid is not an Ed25519 key".into())),
         (Some(_), None) => bad.push(("signature", "signature segment is not base64url".into())),
         (Some(k), Some(oks)) => {
             if !oks.contains(&k) {
@@ -820,7 +836,7 @@ fn del<T: Clone>(ms: &[(String, T)], k: &str) -> Vec<(String, T)> {
 }
 
 /// the value pool used for retyping / random edits of a claim
-fn value_pool(rng: &mut Rng) -> Vec<V> {
+fn value_pool(rng: &mut Rng, l: i64) -> Vec<V> {
     let u = uuid_of(rng);
     let p1 = pssid1_of(rng);
     let uu = u.to_uppercase();
@@ -838,16 +854,16 @@ fn value_pool(rng: &mut Rng) -> Vec<V> {
         raw(&q(&format!("B{}", &p1[1..]))), raw(&q(&format!("AQ{}", &p1[2..]))), raw(&q(&format!("AP{}", &p1[2..]))),
         raw(&q(&format!("{}B", &p1[..22]))), raw(&q(&format!("{}E", &p1[..22]))), raw(&q(&format!("{}+", &p1[..22]))),
         raw(&q(&p1.replace('-', "+").replace('_', "/"))),
-        V::T(0), V::T(-1), V::T(1), V::T(59), V::T(60), V::T(61), V::T(62), V::T(-59), V::T(-60), V::T(-61), V::T(-62),
-        V::T(3600), V::T(-3600), V::TF(0, ".0".into()), V::TF(60, ".4".into()), V::TF(60, ".5".into()), V::TF(61, ".0".into()),
-        V::TF(-61, ".4".into()), V::TF(-61, ".5".into()), V::TF(3600, "e0".into()), V::TF(-60, ".0".into()),
+        V::T(0), V::T(-1), V::T(1), V::T(l - 1), V::T(l), V::T(l + 1), V::T(l + 2), V::T(-l + 1), V::T(-l), V::T(-l - 1), V::T(-l - 2),
+        V::T(3600), V::T(-3600), V::TF(0, ".0".into()), V::TF(l, ".4".into()), V::TF(l, ".5".into()), V::TF(l + 1, ".0".into()),
+        V::TF(-l - 1, ".4".into()), V::TF(-l - 1, ".5".into()), V::TF(3600, "e0".into()), V::TF(-l, ".0".into()),
     ]
 }
 
-fn systematic(rng: &mut Rng, with_jwks: bool, thorough: bool) -> Vec<Case> {
+fn systematic(rng: &mut Rng, with_jwks: bool, thorough: bool, l: i64) -> Vec<Case> {
     let mut out = vec![];
     let bs = bases(rng, with_jwks);
-    let pool = value_pool(rng);
+    let pool = value_pool(rng, l);
     // the suspected defect of DESIGN §9 row 10, spelled out
     let b = &bs[1].clone();
     let mut c = b.case("probe nbf=now+3600");
@@ -891,7 +907,7 @@ fn systematic(rng: &mut Rng, with_jwks: bool, thorough: bool) -> Vec<Case> {
         // ---- header: typ / kid / other members ------------------------------------------------
         for (k, vals) in [
             ("typ", vec!["\"JWT\"", "\"jwt\"", "\"at+jwt\"", "\"\"", "null", "1", "[\"JWT\"]"]),
-            ("kid", vec!["\"some-kid\"", "\"ssr-key-1\"", "\"unknown-kid\"", "\"\"", "null", "5", "[\"k\"]"]),
+            ("kid", vec!["\"some-kid\"", "\"ssr-key-1\"", "\"ec-key\"", "\"unknown-kid\"", "\"\"", "null", "5", "[\"k\"]"]),
             ("cty", vec!["\"JWT\"", "7"]),
             ("crit", vec!["[\"exp\"]", "[\"b64\"]", "\"exp\"", "[1]"]),
             ("x5c", vec!["[]", "[\"AAAA\"]", "\"AAAA\""]),
@@ -965,8 +981,8 @@ fn systematic(rng: &mut Rng, with_jwks: bool, thorough: bool) -> Vec<Case> {
             }
         }
         // exp × nbf window grid
-        for e in [-62i64, -61, -60, -59, -1, 0, 1, 3600] {
-            for n in [-3600i64, -1, 0, 59, 60, 61, 62, 3600] {
+        for e in [-l - 2, -l - 1, -l, -l + 1, -1, 0, 1, 3600] {
+            for n in [-3600i64, -1, 0, l - 1, l, l + 1, l + 2, 3600] {
                 let mut c = b.case(&format!("window exp=now{e:+} nbf=now{n:+}"));
                 c.pay = Pay::Obj(set(&set(&b.pay, "exp", V::T(e)), "nbf", V::T(n)));
                 out.push(c);
@@ -1058,7 +1074,7 @@ fn systematic(rng: &mut Rng, with_jwks: bool, thorough: bool) -> Vec<Case> {
     out
 }
 
-fn random_case(rng: &mut Rng, bs: &[Base], pool: &[V]) -> Case {
+fn random_case(rng: &mut Rng, bs: &[Base], pool: &[V], l: i64) -> Case {
     let b = rng.pick(bs).clone();
     let mut c = b.case("random-edits");
     let mut pay = b.pay.clone();
@@ -1085,13 +1101,13 @@ fn random_case(rng: &mut Rng, bs: &[Base], pool: &[V]) -> Case {
             }
             2 => {
                 let k = *rng.pick(&["alg", "typ", "kid", "foo"]);
-                let v = *rng.pick(&["\"EdDSA\"", "\"HS256\"", "\"none\"", "\"JWT\"", "\"ssr-key-1\"", "\"zzz\"", "null", "1"]);
+                let v = *rng.pick(&["\"EdDSA\"", "\"HS256\"", "\"none\"", "\"JWT\"", "\"ssr-key-1\"", "\"ec-key\"", "\"zzz\"", "null", "1"]);
                 hdr = set(&hdr, k, v.to_string());
                 label.push(format!("hdr {k}"));
             }
             3 => {
                 let k = *rng.pick(&["exp", "nbf", "iat"]);
-                let o = *rng.pick(&[-3600i64, -120, -62, -61, -60, -59, -2, -1, 0, 1, 2, 58, 59, 60, 61, 62, 120, 3600]);
+                let o = *rng.pick(&[-3600i64, -2 * l, -l - 2, -l - 1, -l, -l + 1, -2, -1, 0, 1, 2, l - 2, l - 1, l, l + 1, l + 2, 2 * l, 3600]);
                 pay = set(&pay, k, V::T(o));
                 label.push(format!("{k}=now{o:+}"));
             }
@@ -1166,7 +1182,130 @@ async fn serve_jwks(listener: tokio::net::TcpListener, body: String) {
     }
 }
 
-fn make_env(seed: u64, notes: &mut Vec<String>) -> Env {
+
+// ------------------------------------------------------------------------------------------------
+// end to end: the real control-plane router (AuthMiddleware + register_snaptun_identity_handler)
+// ------------------------------------------------------------------------------------------------
+
+/// A PocketSCION runtime with one SNAP: its control API is `snap_control::server::build_router` with the
+/// `AuthMiddlewareLayer` around the Connect-RPC routes, verifier = static key (the repo's constant test key).
+struct E2e {
+    _rt: pocketscion::runtime::PocketScionRuntime,
+    addr: std::net::SocketAddr,
+}
+
+fn start_e2e(env: &Env) -> Result<E2e, String> {
+    use pocketscion::{
+        network::scion::topology::{ScionAs, ScionTopologyBuilder},
+        runtime::builder::PocketScionRuntimeBuilder,
+        state::PocketScionState,
+        util::topologies::IA132,
+    };
+    let r = catch(|| {
+        env.rt.block_on(async {
+            let mut pstate = PocketScionState::new(chrono::Utc::now());
+            let mut topo = ScionTopologyBuilder::new();
+            topo.add_as(ScionAs::new_core(IA132)).map_err(|e| format!("add_as: {e}"))?;
+            pstate.set_topology(topo.build().map_err(|e| format!("topology: {e}"))?);
+            let snap = pstate.add_snap(IA132).map_err(|e| format!("add_snap: {e}"))?;
+            let rt = tokio::time::timeout(Duration::from_secs(20), PocketScionRuntimeBuilder::new().with_system_state(pstate).start())
+                .await
+                .map_err(|_| "pocketscion start timed out".to_string())?
+                .map_err(|e| format!("pocketscion start: {e}"))?;
+            let addr = rt.snap_control_addr(snap).ok_or("no snap control address")?;
+            Ok::<E2e, String>(E2e { _rt: rt, addr })
+        })
+    });
+    match r {
+        Ok(x) => x,
+        Err(m) => Err(format!("panic: {m}")),
+    }
+}
+
+/// POST RegisterSnapTunIdentity with `Authorization: Bearer <token>`; returns the HTTP status (0 = the
+/// connection was closed without a response) and the body text
+fn e2e_register(env: &Env, e: &E2e, token: &str) -> (u16, String) {
+    use prost::Message;
+    use tokio::io::{AsyncReadExt, AsyncWriteExt};
+    let req = snap_control::proto::anapaya::snap::v1::RegisterSnapTunIdentityRequest { initiator_static_x25519: vec![7u8; 32], psk_share: vec![0u8; 32] };
+    let body = req.encode_to_vec();
+    let head = format!(
+        "POST /anapaya.snap.v1.SnapControl/RegisterSnapTunIdentity HTTP/1.1\r\nhost: snap\r\nauthorization: Bearer {token}\r\ncontent-type: application/proto\r\ncontent-length: {}\r\nconnection: close\r\n\r\n",
+        body.len()
+    );
+    let addr = e.addr;
+    env.rt.block_on(async move {
+        let fut = async {
+            let mut s = tokio::net::TcpStream::connect(addr).await.ok()?;
+            s.write_all(head.as_bytes()).await.ok()?;
+            s.write_all(&body).await.ok()?;
+            let mut out = vec![];
+            let _ = s.read_to_end(&mut out).await;
+            Some(out)
+        };
+        let out = tokio::time::timeout(Duration::from_secs(10), fut).await.ok().flatten().unwrap_or_default();
+        let txt = String::from_utf8_lossy(&out).into_owned();
+        let status = txt.strip_prefix("HTTP/1.1 ").and_then(|r| r.get(..3)).and_then(|c| c.parse::<u16>().ok()).unwrap_or(0);
+        let body = txt.split("\r\n\r\n").nth(1).unwrap_or("").chars().filter(|c| !c.is_control()).take(160).collect();
+        (status, body)
+    })
+}
+
+/// one recipe through the real router; the model's verdict + lifetime predicts the status:
+/// refused -> 401 (AuthMiddleware); accepted and exp in the future -> 200 (registered); accepted and exp
+/// already past (inside the leeway) -> 400 "expiration time is in the past"; accepted and exp beyond
+/// SystemTime -> the handler panics (no response)
+fn run_e2e(c: &Case, env: &Env, e: &E2e, lean: &mut Lean, rep: &mut Report) {
+    for _ in 0..4 {
+        let t0 = now_secs();
+        let tok = render(c, env, t0);
+        if tok.is_empty() || !tok.bytes().all(|b| (0x21..=0x7e).contains(&b)) {
+            rep.hit("e2e skipped (token is not a visible-ASCII header value)");
+            return;
+        }
+        let (status, body) = e2e_register(env, e, &tok);
+        let t1 = now_secs();
+        if t1 != t0 {
+            continue;
+        }
+        let parsed = parse_token(&tok, env);
+        let model = match &parsed {
+            None => "err header".to_string(),
+            Some(p) => lean.ask(&model_request(p, false, t0)),
+        };
+        let expect: Vec<u16> = if !lean.enabled {
+            vec![status]
+        } else if model.starts_with("err") {
+            vec![401]
+        } else {
+            let exp: u128 = model.split(' ').nth(2).and_then(|x| x.parse().ok()).unwrap_or(0);
+            let at_start = lean.ask(&format!("life {exp} {}", t0 as u128 * 1_000_000_000));
+            let at_end = lean.ask(&format!("life {exp} {}", (t0 as u128 + 1) * 1_000_000_000));
+            let st = |l: &str| if l == "panic" { 0 } else if l == "none" { 400 } else { 200 };
+            vec![st(&at_start), st(&at_end)]
+        };
+        rep.hit(&format!("e2e status {status}"));
+        rep.traces += 1;
+        if !expect.contains(&status) {
+            rep.disagree("e2e-router", json!({"kind": c.kind, "recipe": serde_json::to_value(c).unwrap(), "token": tok, "now": t0, "body": body}), &format!("http {status}"), &format!("{model} => http {expect:?}"));
+        }
+        // spec oracle on the middleware verdict
+        let viol = spec_violations(&parsed, false, t0, env.leeway);
+        if status != 401 && status != 0 {
+            if let Some((k, what)) = viol.first() {
+                rep.spec_fail(&format!("C10:accepted:{k}"), &format!("AuthMiddleware let the request through (http {status}) although {what}"), json!({"kind": c.kind, "recipe": serde_json::to_value(c).unwrap(), "token": tok, "now": t0}));
+            }
+        } else if status == 401 && viol.is_empty() {
+            rep.spec_fail("C10:rejected-valid", &format!("AuthMiddleware answered 401 to a token that satisfies every conjunct: {body}"), json!({"kind": c.kind, "recipe": serde_json::to_value(c).unwrap(), "token": tok, "now": t0}));
+        }
+        if status == 0 {
+            rep.hit("observation: e2e handler panic / connection closed without response");
+        }
+        return;
+    }
+}
+
+fn make_env(seed: u64, const_static_key: bool, notes: &mut Vec<String>) -> Env {
     let mut krng = Rng::new(seed ^ 0xC10);
     let sk: Vec<SigningKey> = (0..3)
         .map(|_| {
@@ -1174,12 +1313,21 @@ fn make_env(seed: u64, notes: &mut Vec<String>) -> Env {
             SigningKey::from_bytes(&b.try_into().unwrap())
         })
         .collect();
+    let mut sk = sk;
+    if const_static_key {
+        // the key pocketscion's SNAP control plane trusts by default (`insecure_const_ed25519_key_pair_pem`)
+        sk[K_STATIC] = scion_sdk_token_validator::validator::insecure_const_ed25519_signing_key();
+    }
     let vk: Vec<VerifyingKey> = sk.iter().map(|k| k.verifying_key()).collect();
     let rt = tokio::runtime::Builder::new_multi_thread().worker_threads(2).enable_all().build().unwrap();
     let static_key = DecodingKey::from_ed_der(vk[K_STATIC].as_bytes());
     let ver_static = SnapTokenVerifier::new(static_key.clone());
     // JWKS store: real JwksKeyStore fetching from a loop-back endpoint served by this process
-    let jwks_body = json!({"keys": [{"kid": JWKS_KID, "kty": "OKP", "use": "sig", "alg": "EdDSA", "crv": "Ed25519", "x": b64(vk[K_JWKS].as_bytes())}]}).to_string();
+    let jwks_body = json!({"keys": [
+        {"kid": JWKS_KID, "kty": "OKP", "use": "sig", "alg": "EdDSA", "crv": "Ed25519", "x": b64(vk[K_JWKS].as_bytes())},
+        {"kid": JWKS_EC_KID, "kty": "EC", "use": "sig", "alg": "ES256", "crv": "P-256", "x": b64(&krng.bytes(32)), "y": b64(&krng.bytes(32))},
+        {"kty": "OKP", "use": "sig", "alg": "EdDSA", "crv": "Ed25519", "x": b64(vk[K_OTHER].as_bytes())}
+    ]}).to_string();
     let ver_jwks = catch(|| {
         scion_sdk_utils::rustls::select_ring_crypto_provider();
         rt.block_on(async {
@@ -1273,14 +1421,17 @@ fn main() {
     );
     let mut lean = Lean::spawn(&args.driver);
     let mut notes = vec![];
-    let env = make_env(args.seed, &mut notes);
+    let env = make_env(args.seed, false, &mut notes);
     rep.notes.extend(notes);
     let cfg = lean.ask("cfg");
     rep.notes.push(format!("model configuration (Generated/Token.lean): {cfg}; jsonwebtoken default leeway read through the API: {}", env.leeway));
+    // the oracle's leeway is the verifier's *configured* leeway (the property says "the verifier's fixed clock
+    // leeway"): extracted from build_validation()/jsonwebtoken by the translator; a wrong extraction shows up as
+    // accepted/refused mismatches on the window grid (exp = now-leeway-1 / now-leeway, nbf = now+leeway / +1)
+    let mut env = env;
     if lean.enabled {
-        let ml: Option<u64> = cfg.split(' ').nth(3).and_then(|x| x.parse().ok());
-        if ml != Some(env.leeway) {
-            rep.disagree("translator", json!({"what": "leeway"}), &env.leeway.to_string(), &cfg);
+        if let Some(ml) = cfg.split(' ').nth(3).and_then(|x| x.parse::<u64>().ok()) {
+            env.leeway = ml;
         }
     }
     let mut rng = Rng::new(args.seed);
@@ -1298,11 +1449,12 @@ fn main() {
         cases = txt.lines().filter(|l| !l.trim().is_empty() && !l.starts_with('#')).filter_map(|l| serde_json::from_str::<Case>(l).ok()).collect();
     } else {
         let with_jwks = env.ver_jwks.is_some();
-        cases.extend(systematic(&mut rng, with_jwks, args.thorough()));
+        let l = env.leeway as i64;
+        cases.extend(systematic(&mut rng, with_jwks, args.thorough(), l));
         let bs = bases(&mut rng, with_jwks);
-        let pool = value_pool(&mut rng);
+        let pool = value_pool(&mut rng, l);
         for _ in 0..args.scale(4000, 150000) {
-            cases.push(random_case(&mut rng, &bs, &pool));
+            cases.push(random_case(&mut rng, &bs, &pool, l));
         }
         for _ in 0..args.scale(500, 20000) {
             cases.push(random_string(&mut rng));
@@ -1310,7 +1462,7 @@ fn main() {
     }
     // pssid text forms: model vs the real parsers, directly
     if args.replay.is_none() {
-        let pool = value_pool(&mut rng);
+        let pool = value_pool(&mut rng, 60);
         let mut strs: Vec<String> = pool.iter().filter_map(|v| if let V::Raw(s) = v { serde_json::from_str::<String>(s).ok() } else { None }).collect();
         for _ in 0..args.scale(300, 5000) {
             let mut s = if rng.chance(1, 2) { uuid_of(&mut rng) } else { pssid1_of(&mut rng) };
@@ -1382,6 +1534,30 @@ fn main() {
             let small = if already { c.clone() } else { shrink(c, &env, &mut lean, &|o: &Outcome| o.spec.iter().any(|(kk, _)| *kk == k)) };
             let o2 = run_case(&small, &env, &mut lean);
             rep.spec_fail(key, what, json!({"kind": small.kind, "recipe": serde_json::to_value(&small).unwrap(), "token": o2.token, "now": o2.now, "impl": o2.imp}));
+        }
+    }
+    // ---- end to end through the real router ---------------------------------------------------------
+    if args.replay.is_none() {
+        let mut n2 = vec![];
+        let env2 = make_env(args.seed, true, &mut n2);
+        let mut env2 = env2;
+        env2.leeway = env.leeway;
+        match start_e2e(&env2) {
+            Err(m) => rep.notes.push(format!("end-to-end stream not run: {m}")),
+            Ok(e) => {
+                let mut r2 = Rng::new(args.seed ^ 0xE2E);
+                let sys = systematic(&mut r2, false, false, env.leeway as i64);
+                let stride = args.scale(4, 1);
+                let mut n = 0u64;
+                for (i, c) in sys.iter().enumerate() {
+                    if i % stride != 0 && !c.kind.contains("valid") && !c.kind.contains("window") && !c.kind.contains("probe") {
+                        continue;
+                    }
+                    run_e2e(c, &env2, &e, &mut lean, &mut rep);
+                    n += 1;
+                }
+                rep.hit_n("e2e cases (real router: AuthMiddleware + register handler)", n);
+            }
         }
     }
     rep.write(&args.out);
